@@ -33,18 +33,18 @@ type checker struct {
 func run(e *harness.Env) {
 	e.Rule = "full product per sub-space and producer (model.Table, layout, rag collection, docx, odt, xlsx, pptx, html, epub): " +
 		"(table) grids r x c <= 3x3 over cells {a, a|b, |a|, empty, two lines, `c`, \\, *x*, non-ASCII}: quick = every grid with r*c<=2 and every grid with <= 2 cells other than the plain token, " +
-		"thorough = every grid with r*c<=4 and every grid with <= 3 such cells; x HTML wrapping {thead, thead+tfoot, th row, no header, tbody only} for the small grids; x {ToMarkdown(), default options, front matter, TOC, both} for the small grids; " +
-		"(span) every single merged rectangle in 2x2, 2x3, 3x2, 3x3 (thorough: x anchor cell kind, and every pair of disjoint rectangles in 3x3); " +
+		"thorough = every grid with r*c<=4 and every grid with <= 3 such cells (2x3 and 3x2: <= 4); x HTML wrapping {thead, thead+tfoot, th row, no header, tbody only} for the small grids; x {ToMarkdown(), default options, front matter, TOC, both} for the small grids; " +
+		"(span) every single merged rectangle in 2x2, 2x3, 3x2, 3x3 (thorough: x anchor cell kind, and every pair of disjoint rectangles); " +
 		"(heading) document shapes {single level 1..9, ascending ladder, descending ladder, two consecutive headings with the same title, two of the same level} x offset -2..+7 x max 1..6 and 0 (unset) x front matter x TOC; " +
-		"(list) every depth sequence of 1..4 (thorough 1..5) items to depth 3 x every ordered/unordered pattern per depth (8 patterns where the format can mix kinds, else 2) x options; " +
-		"(mix) every sequence of 2..3 blocks over {paragraph, heading, bullet list, numbered list, 2x2 table, 1x1 table with '|'} x 4 option sets. " +
+		"(list) every depth sequence of 1..4 (thorough 1..6) items to depth 3 x every ordered/unordered pattern per depth (8 patterns where the format can mix kinds, else 2) x options; " +
+		"(mix) every sequence of 2..3 (thorough 2..4) blocks over {paragraph, heading, bullet list, numbered list, 2x2 table, 1x1 table with '|'} x 4 option sets. " +
 		"One evaluation = one (document, options, clause) with clause in {table, heading #k, list, tokens}; distinct = distinct descriptors; non-trivial = anything but a plain-cell table / unshifted heading <= 6 / flat list under default options"
 	e.Assumptions = []string{
 		"goldmark v1.4.13 with extension.GFM is a conforming GitHub-flavoured-Markdown parser (tables, ATX headings)",
 		"docxw / odtw / xlsxw / pptxw / epubw and the HTML generator of this check write what ECMA-376 / ODF 1.2 / EPUB 3 / HTML prescribe for the logical document (no schema validator is available offline)",
 		"a cell's line break may come out as <br> or white space; a merged region shows its value at the top-left grid position and empty cells elsewhere; a worksheet's table is the bounding box of its non-empty cells",
 		"YAML front matter and the generated table of contents are removed (by their delimiters) before the body is judged; they are not part of the property",
-		"list structure is judged line-syntactically (one line 'indent marker text' per item, source order, marker class = kind, indentation strictly monotone in depth); goldmark's nesting verdict is recorded as information only",
+		"list structure is judged line-syntactically (one line 'indent marker text' per item, source order, marker class = kind, indentation strictly monotone in depth with at least two columns per level); goldmark's nesting verdict is recorded as information only",
 	}
 	c := &checker{e: e, nsig: map[string]int{}, info: map[string]int64{}}
 	base := os.TempDir()
@@ -310,7 +310,11 @@ func (c *checker) tables() {
 		for r := 1; r <= 3; r++ {
 			for cc := 1; cc <= 3; cc++ {
 				n := r * cc
-				kindVectors(n, n <= fullCells, dev, func(kinds []string, nd int) {
+				dv := dev
+				if c.e.Thorough() && n == 6 {
+					dv = 4
+				}
+				kindVectors(n, n <= fullCells, dv, func(kinds []string, nd int) {
 					small := n <= fullCells || nd <= 1
 					modes := []string{"-"}
 					if p.htmlModes {
@@ -406,7 +410,7 @@ func (c *checker) spans() {
 			for _, a := range rs {
 				combos = append(combos, []rect{a})
 			}
-			if c.e.Thorough() && r == 3 && cc == 3 {
+			if c.e.Thorough() {
 				for i, a := range rs {
 					for _, b := range rs[i+1:] {
 						if disjoint(a, b) {
@@ -562,7 +566,7 @@ func (c *checker) headings() {
 func (c *checker) lists() {
 	maxItems := 4
 	if c.e.Thorough() {
-		maxItems = 5
+		maxItems = 6
 	}
 	for _, p := range producers {
 		if !p.lists {
@@ -629,7 +633,11 @@ func (c *checker) mixes() {
 		if !p.multi {
 			continue
 		}
-		for n := 2; n <= 3; n++ {
+		maxMix := 3
+		if c.e.Thorough() {
+			maxMix = 4
+		}
+		for n := 2; n <= maxMix; n++ {
 			seq := make([]int, n)
 			for {
 				names := make([]string, n)
